@@ -107,7 +107,12 @@ class DorisParser(MySQLParser):
 
         # Doris-specific bracket syntax: VALUES [(...), (...))
         self._match(TokenType.L_BRACKET)
-        values = self._parse_csv(lambda: self._parse_wrapped_csv(self._parse_expression))
+        # Each bound is a Tuple node: a list nested in `expressions` would neither be linked to the tree nor hashable
+        values = self._parse_csv(
+            lambda: self.expression(
+                exp.Tuple(expressions=self._parse_wrapped_csv(self._parse_expression))
+            )
+        )
 
         self._match(TokenType.R_BRACKET)
         self._match(TokenType.R_PAREN)
